@@ -45,13 +45,41 @@ class Disposables:
                 return multiple
 
     async def __aenter__(self) -> Iterable[State]:
-        return [
-            *chain.from_iterable(
-                state
-                for state in await gather(
-                    *[self._initialize(disposable) for disposable in self._disposables],
-                )
+        entered: list[Disposable] = []
+
+        async def initialize(disposable: Disposable) -> Iterable[State]:
+            state: Iterable[State] = await self._initialize(disposable)
+            entered.append(disposable)
+            return state
+
+        try:
+            results: list[Iterable[State] | BaseException] = await gather(
+                *[initialize(disposable) for disposable in self._disposables],
+                return_exceptions=True,
             )
+            exceptions: list[BaseException] = [
+                exc for exc in results if isinstance(exc, BaseException)
+            ]
+            if len(exceptions) > 1:
+                raise BaseExceptionGroup("Initializing errors", exceptions)
+
+            elif exceptions:
+                raise exceptions[0]
+
+        except BaseException as exc:
+            # initialization failed or was cancelled - dispose what was already entered
+            failures: list[BaseException] = [
+                failure
+                for failure in await self._dispose(entered, type(exc), exc, exc.__traceback__)
+                if isinstance(failure, BaseException)
+            ]
+            if failures and not isinstance(exc, CancelledError):
+                raise BaseExceptionGroup("Initializing errors", [exc, *failures]) from exc
+
+            raise
+
+        return [
+            *chain.from_iterable(state for state in results if not isinstance(state, BaseException))
         ]
 
     async def _dispose(
